@@ -42,4 +42,81 @@ theorem rawGet_now (s : Mem) (k : Key) : (s.rawGet k).1.now = s.now := by
   · rfl
   · split <;> rfl
 
+
+theorem lookup_tail_none {s : Store} {k : Key} (h : lookup s k = none) : lookup s.tail k = none := by
+  cases s with
+  | nil => rfl
+  | cons p s =>
+    obtain ⟨k', e⟩ := p
+    simp only [lookup] at h
+    split at h
+    · simp at h
+    · simpa using h
+
+/-- a write survives its own capacity trim whenever the capacity is at least one -/
+theorem lookup_trim_put (cap : Nat) (hc : 0 < cap) (s : Store) (k : Key) (e : Entry) :
+    lookup (Mem.trim cap (put s k e)) k = some e := by
+  unfold Mem.trim
+  split
+  · rename_i hlen
+    unfold put at hlen ⊢
+    cases h : erase s k with
+    | nil => simp [h] at hlen; omega
+    | cons p r =>
+      have hn : lookup (erase s k) k = none := lookup_erase_self s k
+      have := lookup_tail_none hn
+      rw [h] at this
+      simp only [List.cons_append, List.tail_cons]
+      rw [lookup_append]
+      simp only [List.tail_cons] at this
+      simp [this, lookup]
+  · simp [lookup_put]
+
+/-- the deadline `_set` computes is strictly ahead of the clock -/
+theorem newDeadline_live (s : Mem) (k : Key) (v : Val) (ttl : Option Nat) :
+    (⟨v, s.newDeadline k ttl⟩ : Entry).live s.now = true := by
+  unfold Mem.newDeadline
+  split
+  · rename_i d hd
+    unfold deadlineOf at hd
+    split at hd
+    · simp at hd
+    · simp at hd
+    · simp at hd; subst hd; simp [Entry.live]
+  · split
+    · rename_i e he
+      split
+      · rename_i hl
+        simpa [Entry.live] using hl
+      · simp [Entry.live]
+    · simp [Entry.live]
+
+theorem rawSet_then_get (s : Mem) (hc : 0 < s.cap) (k : Key) (v : Val) (ttl : Option Nat) :
+    ((s.rawSet k v ttl).rawGet k).2 = some v := by
+  have h := lookup_trim_put s.cap hc s.store k ⟨v, s.newDeadline k ttl⟩
+  exact rawGet_of_lookup_live (s := s.rawSet k v ttl) h (newDeadline_live s k v ttl)
+
+
+theorem rawGet_cap (s : Mem) (k : Key) : (s.rawGet k).1.cap = s.cap := by
+  unfold Mem.rawGet; split
+  · rfl
+  · split <;> rfl
+
+/-- the shape of `incr`: it fails on a non-number, else stores and returns old + by -/
+theorem incr_shape (s : Mem) (k : Key) (b : Int) (ttl : Option Nat) :
+    ((s.step (.incr k b ttl)).2 = .err) ∨
+    ∃ c : Int, ((s.rawGet k).2 = none ∧ c = 0 ∨ (s.rawGet k).2 = some (.int c)) ∧
+      s.step (.incr k b ttl) =
+        ((s.rawGet k).1.rawSet k (.int (c + b)) (if c + b = 1 then ttl else none), .int (c + b)) := by
+  simp only [Mem.step]
+  cases h : (s.rawGet k).2 with
+  | none => right; exact ⟨0, Or.inl ⟨rfl, rfl⟩, by simp⟩
+  | some v =>
+    cases v with
+    | int i => right; exact ⟨i, Or.inr rfl, by simp [Val.toInt?]⟩
+    | tok n => left; simp [Val.toInt?]
+    | nil => left; simp [Val.toInt?]
+    | keys ks => left; simp [Val.toInt?]
+    | nums ns => left; simp [Val.toInt?]
+
 end CashewsVerif.MemLaws
